@@ -536,6 +536,9 @@ class LoadMixin(AbstractLoaderGenerator, BaseLoadHook):
         if dataclass_tag_to_lines:
 
             with fn_gen.try_():
+                # Test for the key first: subscripting a `defaultdict` without
+                # it would call the factory and write the key into the input.
+                fn_gen.add_line('if tag_key not in v1: raise KeyError(tag_key)')
                 fn_gen.add_line(f'tag = v1[tag_key]')
 
             with fn_gen.except_(Exception):
